@@ -91,6 +91,19 @@ Theorem C05_flags_check_fd : forall s hid hd flags hd' s', check_fd_flags s hid 
   hd_flags hd' = flags /\ hd_host hd' = hd_host hd /\ hd_acc hd' = hd_acc hd /\
   (hd_flags hd <> flags -> hd_append hd' = has flags O_APPEND) /\ p_host s' = p_host s.
 Proof. exact check_fd_flags_sets. Qed.
+(* the per-request flags word of READ/WRITE: recorded and applied (F_SETFL) when it differs from the recorded one; the
+   write then goes through pwrite on that descriptor (C05_op_refines_syscall: [fd_append] in [direct_host]), and
+   pwrite on an O_APPEND descriptor appends whatever the offset (kernel fact of HostFs.v) *)
+Theorem C05_write_flags : forall s hid hd flags hd' s', check_fd_flags s hid hd flags = (hd', s') ->
+  hd_flags hd' = flags /\ hd_append hd' = fd_append hd flags /\
+  (hd_flags hd <> flags -> hd_append hd' = has flags O_APPEND) /\ (hd_flags hd = flags -> hd' = hd /\ s' = s).
+Proof. exact write_flags_status. Qed.
+Theorem C05_pwrite_append : forall c h i off off' w, sys_pwrite c h i true off w = sys_pwrite c h i true off' w.
+Proof. exact pwrite_append_ignores_offset. Qed.
+(* "under writeback no descriptor ever carries O_APPEND" (what open establishes) is refuted: known finding *)
+Theorem C05_writeback_append_refuted : ~ C05_writeback_append_full.
+Proof. exact writeback_append_refuted. Qed.
+
 Theorem C05_special_never_opened : forall cf s inode flags d, assoc inode (p_inodes s) = Some d ->
   is_safe_inode (id_mode d) = false -> open_inode cf s inode flags = (Err EBADF, s).
 Proof. exact special_never_opened. Qed.
@@ -120,4 +133,7 @@ Print Assumptions C05_flags_writeback_off.
 Print Assumptions C05_flags_writeback_no_append.
 Print Assumptions C05_flags_writeback_access.
 Print Assumptions C05_flags_check_fd.
+Print Assumptions C05_write_flags.
+Print Assumptions C05_pwrite_append.
+Print Assumptions C05_writeback_append_refuted.
 Print Assumptions C05_special_never_opened.
